@@ -96,7 +96,7 @@ def class_xml(c):
     """members are filed the way Doxygen files them: one <sectiondef> per kind (`m["section"]`: public-func,
     public-static-func, user-defined for members of a named group, public-attrib, ...), sections in order of
     first appearance, members in table order inside their section"""
-    out = ['<?xml version="1.0" encoding="UTF-8" standalone="no"?>', "<doxygen>",
+    out = ['<?xml version="1.0" encoding="%s" standalone="no"?>' % c.get("encoding", "UTF-8"), "<doxygen>",
            '  <compounddef id="%s" kind="class" language="C++" prot="public">' % c["refid"],
            "    <compoundname>%s</compoundname>" % xml_text(c["name"])]
     sections = []
@@ -115,11 +115,17 @@ def class_xml(c):
                 out.append(member_xml(m, i))
         out.append("    </sectiondef>")
     out += ["  </compounddef>", "</doxygen>", ""]
-    return "\n".join(out).encode("utf-8")
+    return encode_xml("\n".join(out), c.get("encoding", "UTF-8"))
+
+
+def encode_xml(text, encoding):
+    """any encoding an XML parser must honour: what the target cannot express becomes a character reference"""
+    return text.encode(encoding, "xmlcharrefreplace")
 
 
 def index_xml(doc):
-    out = ['<?xml version="1.0" encoding="UTF-8" standalone="no"?>', "<doxygenindex>"]
+    out = ['<?xml version="1.0" encoding="%s" standalone="no"?>' % doc.get("index_encoding", "UTF-8"),
+           "<doxygenindex>"]
     for c in doc["classes"]:
         if not c.get("in_index", True):
             continue
@@ -129,7 +135,7 @@ def index_xml(doc):
                        (i, xml_text(m["name"])))
         out.append("  </compound>")
     out += ["</doxygenindex>", ""]
-    return "\n".join(out).encode("utf-8")
+    return encode_xml("\n".join(out), doc.get("index_encoding", "UTF-8"))
 
 
 def build_tree(doc):
